@@ -2,6 +2,7 @@
 import concurrent.futures as cf
 import json
 import os
+import random
 import shutil
 import tempfile
 
@@ -115,6 +116,59 @@ def crash_run_once(fsdbh, keytab, ops, nkeys, n, recovery_crash=None):
         shutil.rmtree(base, ignore_errors=True)
 
 
+def generation_run(fsdbh, rng, gid):
+    """a database written by an earlier process (clean exit), then a FRESH process opens it, goes on writing and dies at a
+    chosen mutation (or exits); a third process observes.  What the second process acknowledged must be in effect."""
+    nkeys = rng.randint(1, 3)
+    keytab = "keytab " + " ".join(("k%d" % k).encode().hex() for k in range(1, nkeys + 1))
+    v = 0
+    ops1 = []
+    for _ in range(rng.randint(3, 8)):
+        v += 1
+        ops1.append("set 0 %d %d %d s" % (rng.randint(1, nkeys), v, rng.choice([1, 3, 64])))
+    ops2 = []
+    for _ in range(rng.randint(1, 4)):
+        if rng.random() < 0.75:
+            v += 1
+            ops2.append("set 0 %d %d %d s" % (rng.randint(1, nkeys), v, rng.choice([1, 5, 2049])))
+        else:
+            ops2.append("del 0 %d" % rng.randint(1, nkeys))
+    if rng.random() < 0.4:
+        v += 2
+        ops2 += ["begin " + rng.choice(["RC", "SER"]), "set 1 1 %d 4 s" % (v - 1), "set 1 %d %d 4 s" % (nkeys, v), "commit 1"]
+    n2 = rng.choice([0, 0, 1, 2, 3, 4, 5, 6, 8, 10])
+    base = tempfile.mkdtemp(prefix="verif-c04g-")
+    try:
+        rc, out1, err = run_child(fsdbh, keytab, ops1, base, 0)
+        if rc != 0 or sum(1 for l in out1 if l.startswith("ACK ")) != len(ops1):
+            raise C.CheckBroken("first generation failed: rc=%s %s %s" % (rc, out1[-3:], err[-300:]))
+        rc, out2, err = run_child(fsdbh, keytab, ops2, base, n2)
+        i = sum(1 for l in out2 if l.startswith("ACK "))
+        crashed = any(l.startswith("CRASH ") for l in out2)
+        try:
+            obs = observe(fsdbh, keytab, base, nkeys)
+            obs2 = observe(fsdbh, keytab, base, nkeys)
+        except C.CheckBroken as ex:
+            if "badger open" in str(ex):
+                return dict(unobservable=True)
+            raise
+    finally:
+        shutil.rmtree(base, ignore_errors=True)
+    pre = ops1 + ["reopen"]
+    before_s, _ = spec_views(keytab, pre + ops2[:i], nkeys)
+    allowed = [before_s]
+    if i < len(ops2) and may_be_visible(ops2[i]):
+        allowed.append(spec_views(keytab, pre + ops2[:i + 1], nkeys)[0])
+    what = None
+    if obs not in allowed:
+        what = ("a database written by an earlier process, reopened by a fresh process that went on writing: the state after that "
+                "process ended is neither its acknowledged prefix nor prefix + the whole operation in flight")
+    elif obs2 != obs:
+        what = "reopening a second time gives a different state"
+    return dict(gid=gid, keytab=keytab, first_process=ops1, second_process=ops2, crash_before_mutation=n2, crashed=crashed,
+                acknowledged_ops=i, observed=obs, observed_again=obs2, allowed=allowed, what=what)
+
+
 def run(rep):
     rng = C.rng_for(rep.seed, "c04")
     proof_ok = C.proof_step(rep, "C04")
@@ -215,7 +269,23 @@ def run(rep):
             if len(samples) < 2:
                 samples.append(dict(workload=ops, crash_before_mutation=r["n"], crashed_at=r["at"], acknowledged=i,
                                     observed=r["obs"]))
+    # generations: the crash happens in a process that OPENED an existing database (its counters come from Load)
+    ng = 24 if rep.tier == "quick" else 400
+    grng = C.rng_for(rep.seed, "c04-gen")
+    with cf.ThreadPoolExecutor(max_workers=C.NCPU) as ex:
+        gres = list(ex.map(lambda g: generation_run(fsdbh, random.Random(grng.random()), g), range(ng)))
+    gbad = 0
+    for r in gres:
+        if r.get("unobservable"):
+            unobservable += 1
+        elif r["what"]:
+            gbad += 1
+            if gbad <= 2:
+                rep.violation(dict(kind="oracle", **r))
     rep.coverage.update(
+        generation_runs=dict(runs=ng, crashed=sum(1 for r in gres if r.get("crashed")), violations=gbad,
+                             rule="first process writes 3-8 versions and exits; a fresh process opens the directory, performs 1-8 "
+                                  "more operations and dies before its n-th mutation (or exits); a third process observes"),
         evaluations=checked, distinct_nontrivial=checked, crash_points_total=total_points, workloads=len(workloads),
         crash_points_by_mutation_kind=kinds, crash_points_inside_recovery=rec_points, exhaustive=True,
         rule="seeded workloads of 6-15 operations (autocommit and transactional writes, deletes, commits incl. conflicts, "
